@@ -9,6 +9,7 @@ package c02
 import (
 	"bufio"
 	"bytes"
+	"errors"
 	"fmt"
 	"io"
 	"math/rand"
@@ -674,6 +675,124 @@ func TestCipherReaderSourceKinds(t *testing.T) {
 		if len(want) >= 8 && (calls >= 2 || pre%4 != 0) {
 			hx.NonTrivial(hx.Hash("reader-source", kind, n, pre, viaReset, fmt.Sprint(chunks), fmt.Sprint(bufs)), func() interface{} {
 				return map[string]interface{}{"api": "CipherReader over " + kind, "len": n, "key": fmt.Sprintf("%x", key), "inner_key": fmt.Sprintf("%x", innerKey), "inner_delivered_before": pre, "via_reset": viaReset}
+			})
+		}
+	})
+}
+
+// errTransient is a non-fatal source error (a deadline that fired, a
+// temporary condition): the stream goes on afterwards.
+var errTransient = errors.New("c02: transient source error")
+
+// hiccupSrc serves data in chunks; Read call number i (0-based) for which
+// Hiccup[i] is set returns its bytes together with errTransient (io.Reader
+// allows n > 0 with any error), or no bytes and errTransient when Hiccup[i]
+// is false-valued; later calls deliver plain data again. io.EOF only at the end.
+type hiccupSrc struct {
+	data   []byte
+	sizes  []int
+	Hiccup map[int]bool // call index -> deliver data with the error?
+	calls  int
+	pos    int
+}
+
+func (s *hiccupSrc) Read(p []byte) (int, error) {
+	i := s.calls
+	s.calls++
+	withData, hic := s.Hiccup[i]
+	if hic && !withData {
+		return 0, errTransient
+	}
+	if len(p) == 0 {
+		return 0, nil
+	}
+	rem := len(s.data) - s.pos
+	if rem == 0 {
+		return 0, io.EOF
+	}
+	n := min(len(p), rem)
+	if len(s.sizes) > 0 {
+		if c := s.sizes[i%len(s.sizes)]; c > 0 && c < n {
+			n = c
+		}
+	}
+	copy(p, s.data[s.pos:s.pos+n])
+	s.pos += n
+	if hic {
+		return n, errTransient
+	}
+	return n, nil
+}
+
+// A source may deliver bytes together with a non-fatal error and carry on:
+// the caller keeps reading, and everything delivered is still the reference
+// at the running offset (bytes that came with an error count).
+func TestCipherReaderTransientErrors(t *testing.T) {
+	hx.Check(t, 8, func(t *rapid.T) {
+		n := rapid.IntRange(1, 200).Draw(t, "len")
+		if rapid.IntRange(0, 5).Draw(t, "long") == 0 {
+			n = drawLen(t, "lenLong")%6000 + 1
+		}
+		key := gen.Key(t, "key")
+		data := pattern(n, drawSeed(t))
+		chunks := gen.Chunks(t, "chunks")
+		bufs := drawBufSizes(t, "bufs")
+		src := &hiccupSrc{data: data, sizes: chunks, Hiccup: map[int]bool{}}
+		nh := rapid.IntRange(1, 4).Draw(t, "hiccups")
+		for i := 0; i < nh; i++ {
+			src.Hiccup[rapid.IntRange(0, 12).Draw(t, "hiccupAtCall")] = rapid.IntRange(0, 3).Draw(t, "withData") != 0
+		}
+		viaReset := rapid.Bool().Draw(t, "viaReset")
+		hx.Eval()
+
+		var cr *wsutil.CipherReader
+		if viaReset {
+			cr = wsutil.NewCipherReader(nil, [4]byte{0xde, 0xad, 0xbe, 0xef})
+			cr.Reset(src, key)
+		} else {
+			cr = wsutil.NewCipherReader(src, key)
+		}
+		want := ref.Mask(data, key, 0)
+		var got []byte
+		withData, oddWithData := 0, false
+		space := make([]byte, 80000)
+		for i := 0; ; i++ {
+			if i > 2*n+64 {
+				t.Fatalf("CipherReader did not reach the end within %d Read calls", i)
+			}
+			bs := bufs[i%len(bufs)]
+			buf := space[:bs:bs]
+			k, err := cr.Read(buf)
+			if k < 0 || k > bs {
+				t.Fatalf("Read returned n=%d for a %d-byte buffer", k, bs)
+			}
+			got = append(got, buf[:k]...)
+			if !bytes.Equal(got, want[:min(len(got), len(want))]) || len(got) > len(want) {
+				t.Fatalf("%s\nkey=%x chunks=%v bufs=%v source calls answered with the transient error (true: with data)=%v; after Read call %d", diffMsg("bytes delivered so far differ from the reference", got, want), key, chunks, bufs, src.Hiccup, i)
+			}
+			if err == errTransient {
+				if k > 0 {
+					withData++
+					if k%4 != 0 && len(got) < n {
+						oddWithData = true
+					}
+				}
+				continue // non-fatal: the caller reads on
+			}
+			if err == io.EOF {
+				break
+			}
+			if err != nil {
+				t.Fatalf("Read returned %v; the source only reports the transient error and io.EOF", err)
+			}
+		}
+		if !bytes.Equal(got, want) {
+			t.Fatalf("%s", diffMsg("CipherReader output differs from the reference", got, want))
+		}
+		hx.Class(fmt.Sprintf("reader-transient/errorsWithData=%d/oddCountThenMoreData=%v", min(withData, 2), oddWithData))
+		if n >= 8 && oddWithData {
+			hx.NonTrivial(hx.Hash("reader-transient", n, fmt.Sprint(chunks), fmt.Sprint(bufs), fmt.Sprint(src.Hiccup)), func() interface{} {
+				return map[string]interface{}{"api": "CipherReader over a source with non-fatal errors", "len": n, "key": fmt.Sprintf("%x", key), "src_chunks": chunks, "caller_bufs": bufs, "error_at_source_call(with data)": fmt.Sprint(src.Hiccup)}
 			})
 		}
 	})
